@@ -62,8 +62,7 @@ def TreeEquiv (t' t : Tree) : Prop :=
 /-- **The origins of `Config()` validate without error to an equivalent tree.** -/
 theorem origins_part (ext : Ext) (hext : ∀ h info, ext.ip6 h = some info → h.head? ≠ some 42)
     (cred pna tolI tolP : Bool) (raws : List Bytes) (hne : raws ≠ [])
-    (hclean : raws.flatMap (rawErrs ext cred pna tolI tolP) = [])
-    (hbr : ∀ raw ∈ raws, ∀ p, Pat.parsePattern ext raw = .ok p → (91 : Nat) ∈ raw → (58 : Nat) ∈ p.value) :
+    (hclean : raws.flatMap (rawErrs ext cred pna tolI tolP) = []) :
     let t := (Validate.origins ext cred pna tolI tolP raws).2
     let raws' := if t.isEmpty then [Validate.star] else Tree.elems t
     raws' ≠ [] ∧ (Validate.origins ext cred pna tolI tolP raws').1 = [] ∧
@@ -88,7 +87,7 @@ theorem origins_part (ext : Ext) (hext : ∀ h info, ext.ip6 h = some info → h
   | false =>
     simp only [Bool.false_eq_true, if_false]
     have hok : OriginsOK ext cred pna tolI tolP raws := ⟨hne, hs, hcl⟩
-    obtain ⟨hsub, hne', hequiv⟩ := origins_roundtrip ext hext cred pna tolI tolP raws hok hbr
+    obtain ⟨hsub, hne', hequiv⟩ := origins_roundtrip ext hext cred pna tolI tolP raws hok
     -- the original tree is not empty
     have hnotEmpty : Node.isEmpty ((parsedPatterns ext raws).foldl Tree.insert Node.empty) = false := by
       obtain ⟨raw0, hraw0⟩ : ∃ raw0, raw0 ∈ raws := by
@@ -114,16 +113,13 @@ theorem origins_part (ext : Ext) (hext : ∀ h info, ext.ip6 h = some info → h
     have hns' : (Tree.elems ((parsedPatterns ext raws).foldl Tree.insert Node.empty)).contains Validate.star = false := by
       cases hc : (Tree.elems ((parsedPatterns ext raws).foldl Tree.insert Node.empty)).contains Validate.star with
       | false => rfl
-      | true =>
-        have := hsub _ (List.contains_iff_mem.mp hc)
-        have := List.contains_iff_mem.mpr this
-        rw [hs] at this; cases this
+      | true => exact absurd rfl (hsub _ (List.contains_iff_mem.mp hc)).1
     refine ⟨hne', ?_, ?_⟩
     · rw [origins_eq _ _ _ _ _ _ hne']
       simp only []
       apply flatMap_nil_of
       intro x hx
-      exact hcl x (hsub x hx)
+      exact (hsub x hx).2.1
     · rw [origins_eq _ _ _ _ _ _ hne']
       simp only [hns', Bool.false_eq_true, if_false]
       refine ⟨?_, hequiv⟩
@@ -145,7 +141,7 @@ theorem origins_part (ext : Ext) (hext : ∀ h info, ext.ip6 h = some info → h
         cases hr : Tree.elems ((parsedPatterns ext raws).foldl Tree.insert Node.empty) with
         | nil => exact absurd hr hne'
         | cons a _ => exact ⟨a, List.mem_cons_self⟩
-      obtain ⟨hs0, p0, hp0⟩ := ok_parses hok (hsub x0 hx0)
+      obtain ⟨hs0, _, p0, _, hp0⟩ := hsub x0 hx0
       intro hnil
       have : p0 ∈ parsedPatterns ext (Tree.elems ((parsedPatterns ext raws).foldl Tree.insert Node.empty)) :=
         mem_parsed.mpr ⟨x0, hx0, hs0, hp0⟩
